@@ -43,7 +43,11 @@ Restart ==
 
 Kill == WithCrash /\ nrestart < MaxRestarts /\ (Crash \/ CrashTornFlush \/ CrashTornCopy) /\ UNCHANGED <<nops, nrestart>>
 
-MCNext == Start \/ StartFree \/ (Continue /\ UNCHANGED <<nops, nrestart>>) \/ Restart \/ Kill
+\* CancelGC may arrive at any moment of a pass (the pass looks at the flag at each file boundary).
+\* Enabled by the option "cancel" in Mutants (which doubles as the option set of a configuration).
+Cancel == "cancel" \in Mutants /\ G_Cancel /\ UNCHANGED <<nops, nrestart>>
+
+MCNext == Start \/ StartFree \/ (Continue /\ UNCHANGED <<nops, nrestart>>) \/ Restart \/ Kill \/ Cancel
 
 MCSpec == MCInit /\ [][MCNext]_<<vars, nops, nrestart>>
 
